@@ -298,9 +298,9 @@ def main(prop, tier, seed, replay_path=None):
     if not replay_path:
         import interp_check
         stage = dict(name='testing', charts=gc.family_f3(rng, 10 if quick else 60, nmin=3, nmax=6, tmin=3, tmax=7, nev=2, max_oracle=1),
-                     consts=dict(MaxQ=1, MaxLevel=5 if quick else 6, Params={0, 7}),
-                     variants=[dict(variant='api')],
-                     random=dict(count=150 if quick else 1500, length=14, params=(0, 7),
+                     consts=dict(MaxQ=2, MaxLevel=5 if quick else 6, Params={0, 7}, ExecMany=True),
+                     variants=[dict(variant='api', twin=dict(rel='execute', kw=dict(manual_execute=True)))],
+                     random=dict(count=150 if quick else 1500, length=14, params=(0, 7), pexec=0.6,
                                  family=lambda r, kk: gc.family_f3(r, kk, nmin=5, nmax=9)))
         try:
             sout, viol, allcharts, samples, mc2 = interp_check.run_stage('C19', tier, seed, stage, rng)
